@@ -8,7 +8,8 @@ package main
 //     top-level type (so the three key styles never collide and no flattened key is duplicated);
 //     tag names are t_<n>; "Type" is never a field name (the create keys are "^" and "type");
 //   - embedded fields are unnamed structs or pointers to them and carry no tag;
-//   - no pointer to pointer/[]byte/interface, no named non-struct types, no methods;
+//   - no pointer to pointer/[]byte/interface, no named non-struct types, no methods; no interface
+//     holding a value whose data word is nil (typed nil pointer or map, one-field struct of such);
 //   - strings and map keys come from pools that avoid the SEN bare-word cases owned by C10
 //     (true/false/null, leading sign) and invalid UTF-8; floats are dyadic values whose shortest
 //     32-bit and 64-bit texts coincide; uint/uint64 values stay below 2^63 except in the family
@@ -277,7 +278,12 @@ func (vg *valGen) fill(v reflect.Value, depth int) {
 		if !vg.noNil && r.Intn(4) == 0 {
 			return
 		}
-		v.Set(vg.dynamic(depth))
+		d := vg.dynamic(depth)
+		if wordNil(d) {
+			// outside the model (known finding C15-iface-nil-word): see the family that probes it
+			d = reflect.ValueOf(lib.Pick(r, stringPool))
+		}
+		v.Set(d)
 	case reflect.Slice:
 		if !vg.noNil && r.Intn(5) == 0 {
 			return
@@ -479,4 +485,18 @@ func float32Safe(f float64) bool {
 	}
 	m, e := math.Frexp(f)
 	return math.Ldexp(float64(int64(m*1e7))/1e7, e) == f
+}
+
+// wordNil: an interface holding v stores it directly in its data word (pointer-shaped type) and that
+// word is nil: a nil pointer or map, a struct with one such field, an array of one such element.
+func wordNil(v reflect.Value) bool {
+	switch v.Kind() {
+	case reflect.Ptr, reflect.Map:
+		return v.IsNil()
+	case reflect.Struct:
+		return v.NumField() == 1 && wordNil(v.Field(0))
+	case reflect.Array:
+		return v.Len() == 1 && wordNil(v.Index(0))
+	}
+	return false
 }
